@@ -194,13 +194,55 @@ fn gen_c13(tier: &str, r: &Rng, o: &mut Out<'_>) {
             }
         }
     }
+    // private data / extension filling the field to its end: the length byte equal to what is left,
+    // one less, one more — at the largest field sizes (183 for an AF-only packet, 182 with payload)
+    // and a middle one; every length byte 170..=255 at the full size (seeded change C13-r10m2: an
+    // early "cannot fit" test that is off by one only for the very largest legal value)
+    for f in 0..256usize {
+        let f = f as u8;
+        if f & 0x03 == 0 { continue; }
+        for &len in [183usize, 182, 181, 100].iter() {
+            let fixed = af_min_len(f);
+            if f & 0x02 != 0 {
+                let avail = len as i64 - fixed as i64 - 1;
+                for d in [-1i64, 0, 1] {
+                    let pl = avail + d - if f & 1 != 0 { 1 } else { 0 };
+                    if pl < 0 || pl > 255 { continue; }
+                    let body = af_body(r, f, len, pl as u8, 0, 0, true);
+                    o.d(&format!("af {}", hex(&body)));
+                }
+            }
+            if f & 0x01 != 0 {
+                let before = fixed + if f & 2 != 0 { 1 + 2 } else { 0 };
+                let avail = len as i64 - before as i64 - 1;
+                for d in [-1i64, 0, 1] {
+                    let el = avail + d;
+                    if el < 0 || el > 255 { continue; }
+                    let body = af_body(r, f, len, 2, el as u8, 0xe0, true);
+                    o.d(&format!("af {}", hex(&body)));
+                }
+            }
+        }
+    }
+    for &f in [0x02u8, 0x03, 0x12, 0x1e, 0x1f, 0x06].iter() {
+        for pl in 150..=255usize {
+            let body = af_body(r, f, 183, pl as u8, 0, 0, true);
+            o.d(&format!("af {}", hex(&body)));
+        }
+    }
     let n = if thorough { 300_000 } else { 5_000 };
     for _ in 0..n {
         let len = 1 + r.below(183) as usize;
-        let body = r.bytes(len);
+        let mut body = r.bytes(len);
+        // half of the random bodies get length bytes that make the variable parts fit or nearly fit
+        if r.chance(1, 2) && len > 2 {
+            let f = body[0];
+            let fixed = af_min_len(f);
+            if f & 2 != 0 && fixed < len { body[fixed] = (len - fixed - 1).saturating_sub(r.below(3) as usize).min(255) as u8; }
+        }
         o.d(&format!("af {}", hex(&body)));
     }
-    o.meta("exhaustive", "all 256 AF flag bytes x boundary lengths x private/extension length bytes x extension flag sets");
+    o.meta("exhaustive", "all 256 AF flag bytes x boundary lengths x private/extension length bytes x extension flag sets; fill-to-the-end length bytes at the largest field sizes");
 }
 
 // ---------------------------------------------------------------- C14: PES header
@@ -253,6 +295,21 @@ fn gen_c14(tier: &str, r: &Rng, o: &mut Out<'_>) {
             b.extend(pes_optional(r, 0x80 | (r.byte() & 0x3f), f, (need + 2) as u8, 2));
             b.extend(r.bytes(r.below(12) as usize));
             o.d(&format!("pes {}", hex(&b)));
+        }
+    }
+    // every stream id x PES_packet_length below / at / above the bytes present (0 = unbounded): the
+    // declared length is reported, never used to cut the bytes handed out (seeded change C14-r10m1)
+    for sid in 0..256usize {
+        for &present in [0usize, 1, 5, 20].iter() {
+            for &dl in [0i64, 1, 2, present as i64 - 1, present as i64, present as i64 + 1, 65535].iter() {
+                if dl < 0 { continue; }
+                let mut b = vec![0, 0, 1, sid as u8, (dl >> 8) as u8, (dl & 0xff) as u8];
+                let mut body = pes_optional(r, 0x80, 0x00, 0, 0);
+                body.extend(r.bytes(present));
+                body.truncate(present);
+                b.extend(body);
+                o.d(&format!("pes {}", hex(&b)));
+            }
         }
     }
     // start code / length boundaries
@@ -1857,8 +1914,14 @@ fn c11_damage(r: &Rng, progs: &[Prog], pat: &[u8], pmt: &[u8], p0: &Prog, target
     }
     let mut damaged_pk = {
         let mut bad = sec.clone();
+        // dmg 5: exactly one bit of version_number flipped (the copy reads as another version, its
+        // CRC_32 field and length are those of the intact section); dmg 6: one bit flipped outside
+        // the version and the CRC_32 field (seeded change C11-r10m2: a "seen this failing CRC
+        // before" cache keyed on length + CRC_32 field)
+        if dmg == 5 { bad[5] ^= 2u8 << r.below(5); }
+        if dmg == 6 { let n = bad.len(); let mut b = 8 + r.below((n - 12) as u64) as usize; if b >= n - 4 { b = 8; } bad[b] ^= 1 << r.below(8); }
         if dmg == 0 { let b = 24 + r.below((bad.len() * 8 - 24) as u64) as usize; bad[b / 8] ^= 0x80 >> (b % 8); if b / 8 == 5 && (b % 8) >= 2 && (b % 8) <= 6 { bad[5] ^= 0x80 >> (b % 8); let k = 8 % bad.len(); bad[k] ^= 1; } }
-        let plan = if dmg == 0 { plan_for(r, &bad) } else { SecPlan { pre: vec![], first: 30.min(bad.len() - 1).max(8), conts: vec![40, 50], trailing_stuff: true } };
+        let plan = if dmg == 0 || dmg >= 5 { plan_for(r, &bad) } else { SecPlan { pre: vec![], first: 30.min(bad.len() - 1).max(8), conts: vec![40, 50], trailing_stuff: true } };
         m.section(pid, &bad, &plan)
     };
     match dmg {
@@ -1876,6 +1939,13 @@ fn c11_damage(r: &Rng, progs: &[Prog], pat: &[u8], pmt: &[u8], p0: &Prog, target
         let mut s2 = sec.clone(); s2[5] = (s2[5] & 0xc1) | ((((s2[5] >> 1) & 31).wrapping_add(1) & 31) << 1);
         let l = s2.len(); s2.truncate(l - 4); with_crc(s2)
     };
+    if dmg == 6 {
+        // damaged vA, intact vB, then intact vA again
+        let mut s2 = sec.clone(); s2[5] = (s2[5] & 0xc1) | ((((s2[5] >> 1) & 31).wrapping_add(3) & 31) << 1);
+        let l = s2.len(); s2.truncate(l - 4); let s2 = with_crc(s2);
+        all.extend(m.section(pid, &s2, &plan_for(r, &s2)));
+    }
+    let intact = if dmg >= 5 { sec.clone() } else { intact };
     for k in 0..(1 + r.below(3)) {
         // the intact copy is sometimes forced into a single packet / several packets
         let plan = if dmg == 4 && k == 0 && intact.len() <= 183 { simple_plan(intact.len()) } else { plan_for(r, &intact) };
@@ -1901,6 +1971,12 @@ fn gen_c11(tier: &str, r: &Rng, o: &mut Out<'_>) {
                     let body = format!("demux b0t0 {}", hex(&concat(&all)));
                     // same-version-as-damaged-start is the recorded finding F2; everything else is decisive
                     if same_version { o.h(&body); } else { o.d(&body); }
+                }
+                // a damaged copy that READS as another version / vA damaged, vB, vA: the intact copy
+                // differs in version from the last recorded start, so it is applied (decisive)
+                for dmg in 5..7 {
+                    let all = c11_damage(r, &progs, &pat, &pmt, &p0, target_pat, same_version, dmg);
+                    o.d(&format!("demux b0t0 {}", hex(&concat(&all))));
                 }
             }
         }
@@ -2150,7 +2226,21 @@ fn gen_c19(tier: &str, r: &Rng, o: &mut Out<'_>) {
                 qs.push(q);
             } }
             let mut q = vec![]; for _ in 0..(1 + r.below(3)) { q.extend(m.section(0, &pat, &plan_for(r, &pat))); } qs.push(q);
-            for p in progs.iter() { let s = pmt_of(p); let mut q = vec![]; for _ in 0..(1 + r.below(3)) { q.extend(m.section(p.pmt_pid, &s, &plan_for(r, &s))); } qs.push(q); }
+            for p in progs.iter() {
+                let s = pmt_of(p);
+                let mut q = vec![];
+                for _ in 0..(1 + r.below(3)) {
+                    // between repetitions, section starts that the section-syntax processor REJECTS
+                    // (a private compact-syntax section; a section announcing more than 1021 bytes):
+                    // they must leave the de-duplication state alone (seeded change C19-r10m1)
+                    if i % 4 == 1 && r.chance(1, 2) {
+                        let foreign = if r.chance(1, 2) { rand_section(r, false, 3 + r.below(150) as usize) } else { let mut f = rand_section(r, true, 40); let l = 1022 + r.below(3000) as usize; f[1] = (f[1] & 0xf0) | ((l >> 8) as u8 & 0x0f); f[2] = (l & 0xff) as u8; f };
+                        q.extend(m.section(p.pmt_pid, &foreign, &simple_plan(foreign.len())));
+                    }
+                    q.extend(m.section(p.pmt_pid, &s, &plan_for(r, &s)));
+                }
+                qs.push(q);
+            }
             if use_null { qs.push((0..r.below(3)).map(|_| null_pkt(r)).collect()); }
             pushes.push(concat(&interleave(r, qs)));
         }
